@@ -2899,6 +2899,11 @@ bool SGXMLScanner::normalizeAttValue( const   XMLAttDef* const    attDef
             if (nextCh == 0xFFFF)
             {
                 nextCh = *++srcPtr;
+                // A dangling escape marker (left behind by an invalid 0xFFFF
+                // character in the value) ends the value; don't step over
+                // the terminator.
+                if (!nextCh)
+                    return retVal;
             }
             else if ( (nextCh <= 0x0D) && (nextCh == 0x09 || nextCh == 0x0A || nextCh == 0x0D) ) {
                 // Check Validity Constraint for Standalone document declaration
@@ -2937,6 +2942,11 @@ bool SGXMLScanner::normalizeAttValue( const   XMLAttDef* const    attDef
             if (nextCh == 0xFFFF)
             {
                 nextCh = *++srcPtr;
+                // A dangling escape marker (left behind by an invalid 0xFFFF
+                // character in the value) ends the value; don't step over
+                // the terminator.
+                if (!nextCh)
+                    return retVal;
             }
             else if (nextCh == chOpenAngle) {
                 //  If its not escaped, then make sure its not a < character, which is
@@ -3017,7 +3027,14 @@ bool SGXMLScanner::normalizeAttRawValue( const   XMLCh* const        attrName
         nextCh = *srcPtr;
         escaped = (nextCh == 0xFFFF);
         if (escaped)
+        {
             nextCh = *++srcPtr;
+            // A dangling escape marker (left behind by an invalid 0xFFFF
+            // character in the value) ends the value; don't step over
+            // the terminator.
+            if (!nextCh)
+                return retVal;
+        }
 
         //  If its not escaped, then make sure its not a < character, which is
         //  not allowed in attribute values.
